@@ -76,6 +76,15 @@ def asInt : Val → Int × Bool
   | .int i => (i, true)
   | _ => (0, false)
 
+/-- a value the translated code only hands on (`*Document`, `*Format`, …); a string so that parameters standing for
+    untranslated functions can tell one handle from another -/
+abbrev Opaque := String
+
+/-- `l[i]` on a `[]string` for an index inside the slice (outside: Go panics; the translated functions guard the access
+    with `len`) -/
+def strAt (l : List String) (i : Int) : String :=
+  if i < 0 then "" else l.getD i.toNat ""
+
 /-- `for idx, v := range l` -/
 def enumFrom : Int → List α → List (Int × α)
   | _, [] => []
